@@ -18,13 +18,13 @@ CHECKS = {
    "Canary-heavy seeded histories (second template change during a canary, replicas as number/percent, node churn, pause/unpause/fail/validate commands, all reconcile orders): every pod create by a non-active up-to-date replica set must target a node of status.canary.nodes as read; the active replica set must not create/delete on canary nodes; canary list growth bounded by the resolved replicas; canary label present on canary pods while the canary runs (nobody but the canary replica set itself may take it away: every applied pod patch is judged from its stored before/after images) and gone at the post-promotion fixpoint; a steady-state phase (manual validation) checks that canary nodes run the new template, every other eligible node keeps a Ready pod of the active template, and nothing of the new template leaks outside status.canary.nodes; schedule N nests other reconciles inside a running one.",
    T+"role is derived from the EDS status the sync read.", "4/C04"),
  "C05": ("exploration", "exhaustive lattice (12960 prepared stores, one real EDS Reconcile each at an exact virtual instant) + promotion monitor on every EDS reconcile of the simulator",
-   "The full product of the quantifier (strategy x age vs duration x noRestartsDuration x last restart x pause source x unpause x canary-valid x failed x active present) is enumerated; a switch of status.activeReplicaSet is judged against promotionAllowed (must / must-not / either at the stated equalities).",
+   "The full product of the quantifier (strategy x age vs duration x noRestartsDuration x last restart x pause source x unpause x canary-valid x failed x active replica set present / terminating behind a finalizer / absent) is enumerated; a switch of status.activeReplicaSet is judged against promotionAllowed (must / must-not / either at the stated equalities).",
    T+"the equality points (age = duration, since-restart = noRestartsDuration) are not judged.", "4/C05"),
  "C06": ("exploration", "differential oracle (canaryVerdict) over the real manageCanaryStatus via verif shim; second call for stickiness; failed-canary-creates-nothing monitor on real canary syncs of the simulator; store-level stickiness monitor (no write ever takes Canary-Failed away from a replica set that is still the canary) under atomic and nested schedules",
    "200k (quick) / 2.4M (thorough) seeded canary situations, boundary-complete per dimension (restart counts at/around both thresholds, all 11 cannot-start reasons, ContainerCreating, unrelated reasons, start age before/at/after maxSlowStartDuration, spans and ages at/around their limits, enabled flags, previous conditions, annotations); further calls on the produced status check that a failure stays and that the first observed restart is not forgotten by a sync without restarting pods.",
    T+"Paused is don't-care once failed ('otherwise' in the statement).", "4/C06"),
  "C07": ("exploration", "runtime monitors on EDS reconciles that read a Canary-Failed replica set + rollback fixpoint and retention phase; fault points are covered by C11's failure-and-rollback scenario",
-   "Seeded histories ending in failure (restart storms, kubectl-eds canary fail, while paused or not, before/after the duration elapsed): the rollback writes (spec restored, status.canary cleared, active unchanged) are judged on the invocation, retention (>= 2 min, zero counters) on every delete of a failed replica set, the failure mark never taken away from a replica set that is still the canary (also when kubectl-eds canary fail lands inside a running sync), nodes restored and failed RS collected at the convergence fixpoint.",
+   "Seeded histories ending in failure (restart storms, kubectl-eds canary fail, while paused or not, before/after the duration elapsed): the rollback writes (spec restored, status.canary cleared, active unchanged) are judged on the invocation, retention (>= 2 min, zero counters) on every delete of a failed replica set, the failure mark never taken away from a replica set that is still the canary (also when kubectl-eds canary fail lands inside a running sync), nodes restored and failed RS collected at the convergence fixpoint; a convergence failure after a canary failure is canary-pods-replaced (templates of the history may tolerate a taint the others do not, so a failed canary can sit on a node the active template cannot use).",
    T+"a replica set both failed and explicitly validated is an 'either' corner (C05 allows promotion).", "4/C07"),
  "C08": ("exploration", "runtime monitors over invocation records with pause/freeze/canary-pause toggling + status.state check on every EDS status write",
    "Hold-heavy seeded histories (annotations toggled directly and through the real kubectl-eds bodies, new nodes joining): an active-role sync that read rolling-update-paused=true issues no update deletion, with rollout-frozen=true neither creates nor update-deletes; a canary-role sync that read a paused canary creates nothing; state equals the documented function; resumption is part of the convergence phase. Scripted hold scenarios (paused, frozen, both, canary paused before/after its pods; seeded sizes, modes and orders) judge what must still happen while held (pods for nodes that join while only paused), what must not, and resumption within the round bound after the release.",
@@ -42,10 +42,10 @@ CHECKS = {
    "Two or three ExtendedDaemonSets (same/different names and namespaces, also names that only differ after the 63rd character), a look-alike pod of a StatefulSet named like the old DaemonSet, unrelated pods and DaemonSets with overlapping labels, rollouts and canaries in all interleavings; ownership judged per write from the invocation's own reads; each ExtendedDaemonSet also has its own node override annotations and ExtendedDaemonsetSettings, and a created pod whose resources came from those of another ExtendedDaemonSet is a violation (foreign-object-influence).",
    T+"ownership = namespace + name label / owner reference as stated.", "4/C12"),
  "C13": ("exploration", "runtime monitors on replica-set creates/deletes and PodTemplate reconciles during edit-heavy histories",
-   "Edit sequences over {A,B,C,+selector variants, +variants that differ only in the order of the env list} incl. A-B-A and edits during canaries, with rejected and lost replica-set creates/deletes, all reconcile orders: no second replica set for a template while one exists, created RS faithful to spec.template with a consistent hash chain down to pods, never delete the active/up-to-date RS, delete only with zero counters as read, PodTemplate equals spec.template and carries the RS hash.",
+   "Edit sequences over {A,B,C,+selector variants, +variants that differ only in the order of the env list} incl. A-B-A and edits during canaries, with rejected and lost replica-set creates/deletes, all reconcile orders: no second replica set for a template while one exists, created RS faithful to spec.template with a consistent hash chain down to pods, never delete the active/up-to-date RS, delete only with zero counters as read, PodTemplate equals spec.template as a whole (no leftover of an earlier template) and carries the RS hash.",
    T+"'active' for the never-delete rule is the replica set active after the reconcile's own decision.", "4/C13"),
  "C14": ("exploration", "differential oracle (expectedEDSStatus) on prepared stores + on every EDS status write of the simulator + counts at fixpoints",
-   "16k prepared stores (up to three replica sets, roles, conditions, annotations) and every simulated EDS status write compared with the documented status function; 0<=available<=ready<=current<=desired on active/canary RS status writes; at quiescence desired/current/ready/available/upToDate equal the counts over nodes and pods.",
+   "16k prepared stores (up to three replica sets, roles, conditions, annotations) and every simulated EDS status write compared with the documented status function; 0<=available<=ready<=current<=desired on active/canary RS status writes and desired of the active replica set = the nodes it targets as read; at quiescence desired/current/ready/available/upToDate equal the counts over nodes and pods.",
    T+"status.reason is judged only where the documented function determines it (reset when the canary is neither paused nor failed).", "4/C14"),
  "C15": ("exploration", "differential oracle over canary node selection through the real EDS Reconcile, with node churn and a second Reconcile; distinctness monitor on every canary status written in simulated histories with heavy node churn",
    "9.6k (quick) / 96k (thorough) seeded node populations x replicas (int, percent) x selector x anti-affinity keys x previous lists; distinct, valid, stable, count max/min, error only when too few valid nodes, least-restarts preference, spreading.",
@@ -57,9 +57,9 @@ CHECKS = {
    "Helper batches 2..64 x failure plans with jitter at the client seam (nodes with settings, override annotations, and - without scheme - malformed overrides that make pod generation itself fail; a batch that does not return is a violation); real replica-set syncs (active and canary role) with failing pod calls and, in a third of them, a pod removed by someone else just before its Delete: the sync must report the failure and write the condition; the four reconcilers, kubelet and user concurrently on one store with 0/10/100% failing pod calls.",
    T+"the Go race detector only sees the interleavings that occur.", "4/C17"),
  "C18": ("exploration", "differential oracle over the real setting reconciler in every reconcile order of each population + observation of the settings a replica-set sync attaches; at fixpoints of simulated histories with settings: at most one valid setting per node, none valid without a reference, created pods only influenced by valid settings",
-   "1.5k (quick) / 12k (thorough) populations of <=4 settings x <=4 nodes, all <=24 orders, two passes plus a pass in which the node listing of one reconcile is refused (that reconcile must not publish valid) and a recovery pass: mutual exclusion, malformed in error with text, lone well-formed valid, only valid settings influence created pods.",
+   "1.5k (quick) / 12k (thorough) populations of <=4 settings x <=4 nodes, all <=24 orders, two passes plus a pass in which the node listing of one reconcile is refused (that reconcile must not publish valid) and a recovery pass: mutual exclusion, malformed in error with text, lone well-formed valid, only valid settings influence created pods (settings that are not valid - never reconciled, or in error with an empty text - select every node and sort first).",
    T+"settings of other namespaces never conflict.", "4/C18"),
- "C19": ("exploration", "whole-store diff monitor around the real kubectl-eds command bodies on every reachable state + interpretation by following reconciles; command-heavy simulated histories with commands landing inside running reconciles (nested schedule): a successful canary fail is never lost",
+ "C19": ("exploration", "whole-store diff monitor around the real kubectl-eds command bodies on every reachable state + interpretation by following reconciles; command-heavy simulated histories with commands landing inside running reconciles (nested schedule): a successful canary fail is never lost, and holds released through unpause-rolling-update / unfreeze-rollout are obeyed (convergence)",
    "Eight reachable states x command sequences of length <=3 (all 584 per state in thorough) x optional template edit: documented change only, refusal without change when the precondition fails, no refusal of the command the situation calls for when the precondition holds, pause -> Canary Paused, unpause -> Canary, validate promotes exactly the then-canary RS, fail -> rollback.",
    T+"commands run through their run() bodies with an injected client (kubeconfig handling is not exercised).", "4/C19"),
  "C20": ("exploration", "differential oracle over every metric family generator (verif shim) and BuildInfoLabels",
